@@ -6,6 +6,7 @@ import "errors"
 
 // Abstract counting latch: the specification the gate is compared against.
 type verifLatch struct {
+	init     uint16 // the count the latch was created with (restored by clear)
 	cnt, arr uint16
 	canc     bool
 	err      error
@@ -52,6 +53,7 @@ func verifGateOp(g *gateImpl, m *verifLatch, op int) {
 	case 5: // clear
 		g.Clear()
 		m.canc, m.arr, m.err = false, 0, nil
+		m.cnt = m.init // a cleared gate expects what a new one expects
 	case 6: // register more
 		c := verifNondetUint16("register")
 		verifAssume(uint32(m.cnt)+uint32(c) <= 65535)
@@ -64,7 +66,7 @@ func verifGateOp(g *gateImpl, m *verifLatch, op int) {
 func verifGateHarness(nWaiters, nOps int) {
 	init := verifNondetUint16("initial count")
 	g := NewGate(init).(*gateImpl)
-	m := &verifLatch{cnt: init}
+	m := &verifLatch{init: init, cnt: init}
 	returned := make([]bool, nWaiters)
 	for w := 0; w < nWaiters; w++ {
 		w := w
